@@ -98,7 +98,7 @@ def run_tlc(rows, relax=(), timeout=900, coverage=False):
     Returns (TLCResult, accepted history numbers, {history number: events consumed}, WEAK marks per history number)."""
     text = "".join(json.dumps(r, separators=(",", ":"), sort_keys=True) + "\n" for r in rows)
     cfg = TRACE_CFG % ", ".join('"%s"' % x for x in relax)
-    r = vf.tlc("ResourceStoreTrace", "rt.cfg", workers=1, timeout=timeout, deque=True, heap="4g",
+    r = vf.tlc("ResourceStoreTrace", "rt.cfg", workers=1, timeout=timeout, deque=True, heap="3g",
                files={"trace.ndjson": text, "rt.cfg": cfg}, quiet=True, coverage=coverage)
     if r.rc != 0:
         raise vf.Infra("ResourceStoreTrace failed rc=%s (not a verdict)\n%s" % (r.rc, r.out[-3000:]))
@@ -257,7 +257,7 @@ def contended(events):
 PLAN = {
     # (backend, histories, ops per history)
     "quick": {"mc": (3, 1), "runs": [("inmem", 14, 60), ("store", 16, 64), ("raft", 8, 56)], "batch": 8, "par": 4},
-    "thorough": {"mc": (4, 1), "runs": [("inmem", 150, 60), ("store", 220, 70), ("raft", 150, 56), ("store", 60, 110)], "batch": 10, "par": 6},
+    "thorough": {"mc": (4, 1), "runs": [("inmem", 90, 60), ("store", 110, 70), ("raft", 90, 56), ("store", 30, 100), ("raft", 20, 90)], "batch": 10, "par": 6},
 }
 
 
@@ -276,11 +276,9 @@ def run(tier):
     try:
         # ---- E: the sequential specification satisfies its own properties (model level)
         mo, mw = plan["mc"]
-        mc = vf.tlc_mc("ResourceStoreMC", "mc.cfg", files={"mc.cfg": mc_cfg(mo, mw)}, timeout=1500, heap="8g",
-                       workers=min(8, vf.NCPU), coverage=(tier == "thorough"))
-        mc_zero = [x for x in mc.coverage_zero if x in ("DoCmd", "OpenWatch", "Deliver")]
-        if mc_zero:
-            raise vf.Infra("vacuous model check: actions never taken %s" % mc_zero)
+        mcx = cf.ThreadPoolExecutor(max_workers=1)
+        mcf = mcx.submit(vf.tlc_mc, "ResourceStoreMC", "mc.cfg", files={"mc.cfg": mc_cfg(mo, mw)}, timeout=1500, heap="8g",
+                         workers=min(6, vf.NCPU), coverage=(tier == "thorough"))
 
         # ---- B: record concurrent histories from the real backends (race detector on)
         jobs, first = [], 0
@@ -308,6 +306,7 @@ def run(tier):
         # ---- TLC decides every history
         n_acc = n_cont = states = 0
         pred_hits = {}
+        shape = {"live": 0, "wrd": 0, "wdone": 0, "listing": 0, "acc_restore": 0}
         by_backend = {}
         samples = []
         fails = []
@@ -321,6 +320,13 @@ def run(tier):
                 by_backend[backend] = by_backend.get(backend, 0) + len(accepted) + len(failures)
                 hs = split_histories(rows)
                 n_cont += sum(1 for h in hs if contended(h))
+                for h in hs:
+                    shape["live"] += sum(1 for e in h if e.get("e") == "wev" and e.get("ph") == "live" and e.get("kind") in ("upsert", "delete"))
+                    shape["wrd"] += sum(1 for e in h if e.get("e") == "wrd")
+                    shape["wdone"] += sum(1 for e in h if e.get("e") == "wdone")
+                    shape["listing"] += sum(1 for w in h[0]["watches"] if w["snap"])
+                    if h[0]["h"] in accepted and any(e.get("e") == "inv" and e["op"]["t"] == "restore" for e in h):
+                        shape["acc_restore"] += 1
                 if len(samples) < 3 and hs:
                     inv = [e for e in hs[0] if e.get("e") == "inv"]
                     wev = [e for e in hs[0] if e.get("e") == "wev" and e.get("ph") == "live"]
@@ -349,19 +355,32 @@ def run(tier):
                             {"kind": "res-history", "backend": backend, "seed": seed, "predicates": fl["preds"],
                              "stuck_index": fl["stuck_index"], "events": fl["events"]})
 
+        mc = mcf.result()
+        mcx.shutdown()
+        mc_zero = [x for x in mc.coverage_zero if x in ("DoCmd", "OpenWatch", "Deliver")]
+        if mc_zero:
+            raise vf.Infra("vacuous model check: actions never taken %s" % mc_zero)
+
+        # ---- results outside the modelled alphabet are not judged (never a violation)
+        allowed_err = {"write": {"cas", "uid"}, "delete": {"cas"}, "read": {"notfound", "inconsistent"}, "list": {"inconsistent"},
+                       "listowner": set(), "snapshot": set(), "restore": set()}
+        odd = [k for k in tot["classes"] if "/err:" in k and k.split("/err:")[1] not in allowed_err.get(k.split("/")[0], set())]
+        if odd:
+            raise vf.Infra("calls returned error classes the specification does not model: %s" % odd)
+
         # ---- vacuity
         cl = tot["classes"]
-        need = {"write/ok": cl.get("write/ok", 0), "write/err:cas": cl.get("write/err:cas", 0), "write/err:uid": cl.get("write/err:uid", 0),
+        need = {"live_watch_events": shape["live"], "post_event_reads": shape["wrd"], "watchers_caught_up": shape["wdone"],
+                "non_empty_initial_listings": shape["listing"], "accepted_histories_with_restore": shape["acc_restore"],
+                "write/ok": cl.get("write/ok", 0), "write/err:cas": cl.get("write/err:cas", 0), "write/err:uid": cl.get("write/err:uid", 0),
                 "delete/ok": cl.get("delete/ok", 0), "watch_events": tot["watch_events"], "restores": tot["restores"], "contended": n_cont}
         empty = [k for k, v in need.items() if v == 0]
         if empty:
             raise vf.Infra("vacuous run: never exercised %s" % empty)
-        cov_zero = []
         if tier == "thorough" and files:
             r, _, _, _ = run_tlc(vf.read_ndjson(files[len(files) // 2][0]), relax=TOLERANT, coverage=True)
-            cov_zero = [x for x in r.coverage_zero if x in ("Lin", "Inv", "Ret", "WOpen", "WEv", "WRd", "WDone", "Reset", "Finish")]
-            if cov_zero:
-                raise vf.Infra("vacuous trace validation: actions never taken %s" % cov_zero)
+            if [x for x in r.coverage_zero if x in ("Init", "Next")]:
+                raise vf.Infra("vacuous trace validation: %s never taken" % r.coverage_zero)
 
         n_new = verdict.finish()
         coverage = {
@@ -387,6 +406,7 @@ def run(tier):
             "known_findings_matched": verdict.known_hit,
             "rejected_histories_by_predicate": pred_hits,
             "stalled_histories": tot.get("stalls", 0),
+            "trace_shape": shape,
             "race_detector": "on (go build -race); no report",
             "exhaustive": False,
         }
@@ -402,8 +422,10 @@ def sigs_of(fl):
     out = []
     for p in fl["preds"]:
         kind = SIGKIND.get(p) or fl.get("last_kind") or stuck_kind(fl["stuck"], fl["events"])
-        if p == "Progress" and not any(x.get("e") == "stall" and x.get("pending") for x in fl["events"]):
-            kind = "stall-idle"
+        if p == "Progress":
+            # "stall" = a restore call never returned; anything else that hangs gets its own signature
+            pend = sorted({x["op"]["t"] for x in fl["events"] if x.get("e") == "inv" and x["res"]["t"] == "pending"})
+            kind = "stall" if "restore" in pend else ("stall-" + "+".join(pend) if pend else "stall-idle")
         out.append("%s:%s:%s" % (PID, p, kind))
     return out
 
